@@ -16,7 +16,12 @@ RULE = ('generated dataset directories loaded by the real TemplateModel, then ge
         'geometries of 1-2 columns x 2-20 rows plus irregular (tie-free) layouts with fewer AND more channels than '
         'n_closest_channels in {12 (class default), 2, 3, 0}, 1-3 shanks or no shank file, thresholds {0, 1/4, 1/2, 1} as '
         'class attribute and as argument, template_scaling absent or in {1, 2, 3}, explicit channel lists (array, uint32 array, Python list, empty, repeated, out of '
-        'range), unwhiten on/off, sparse column tables with -1, all-zero and below-1e-6 columns. Corpus (the inputs of the '
+        'range), unwhiten on/off, sparse column tables with -1, all-zero and below-1e-6 columns; in half of the datasets a '
+        'HISTORY on the one model object: 1-4 other read-only operations (get_amplitudes_true for templates / clusters, '
+        'get_cluster_mean_waveforms, cluster_waveforms, the templates_* / clusters_* properties, spike / count / merge-map '
+        'accessors, describe, a second TemplateModel on the same directory, repeated get_template, the caller overwriting '
+        'arrays it was returned) inserted anywhere between the requests, requests in shuffled template order, a request '
+        'repeated at the end; amplitudes.npy present or absent. Corpus (the inputs of the '
         'repaired amplitude-alignment defect and one boundary case per operator) first, then a pairwise sweep of the '
         'configuration axes, then seeded random. Non-trivial = a record with at least two listed channels was returned; '
         'distinct = distinct abstract (dataset, requests).')
@@ -45,6 +50,22 @@ ASSUMES = ['loaded dataset state: pairwise distinct channel positions, shank vec
 TIMEOUT = {'quick': 30, 'thorough': 60}
 
 THRS = [[0, 1], [1, 4], [1, 2], [1, 1]]
+
+# The history axis: operations a caller may perform on the SAME model object between two get_template requests.
+# Each is read-only with respect to the stored dataset (an accessor of TemplateModel, a second model object on the
+# same directory in the same process, or the caller writing into arrays that it was HANDED by an accessor); none has
+# an observable of its own here -- the records returned afterwards must still be those of the stored dataset.
+TOUCH = ['amps_t',        # 0  m.get_amplitudes_true()                      (the call of the ALF exporter)
+         'amps_c',        # 1  m.get_amplitudes_true(use='clusters')
+         'amps_scribble', # 2  the caller overwrites the arrays returned by get_amplitudes_true()
+         'rec_scribble',  # 3  the caller overwrites template / amplitude / channel_ids of a record it was returned
+         'cmean',         # 4  m.get_cluster_mean_waveforms(cid, unwhiten=arg parity)
+         'cluster_wf',    # 5  m.cluster_waveforms() and overwriting its .data
+         'props',         # 6  templates_channels / clusters_channels / *_amplitudes / *_waveforms_durations / templates_probes
+         'spikes',        # 7  get_template_counts / get_template_spikes / get_cluster_spikes / get_merge_map / get_depths
+         'describe',      # 8  m.describe()
+         'model2',        # 9  a second TemplateModel on the same directory (other neighbourhood size / threshold), used and closed
+         'reget']         # 10 get_template of every template with both unwhiten values, results dropped
 
 
 # ---- generator ----------------------------------------------------------------------------------------------
@@ -235,7 +256,21 @@ def _mk(rng, **f):
             reqs.append({'k': 'clu', 'cid': cid})
     if rng.random() < 0.2:
         reqs.append({'k': 'clu', 'cid': nt + 3})              # a cluster without spikes: phylib raises
+    # history axis: other accessors of the same object (or caller-side writes into returned arrays) between the requests
+    hist = f.get('hist', rng.random() < 0.5)
+    if hist:
+        sem['amps'] = rng.random() < 0.85
+        if rng.random() < 0.5:
+            rng.shuffle(reqs)                                 # templates no longer asked in increasing order
+        for _ in range(rng.randint(1, 4)):
+            reqs.insert(rng.randint(0, max(0, len(reqs) - 1)), _T(rng.randrange(len(TOUCH)), rng.randrange(24)))
+        if rng.random() < 0.3:                                # the same request again at the end of the history
+            reqs.append(copy.deepcopy(next(r for r in reqs if r['k'] != 'touch')))
     return {'kind': 'get', 'inp': {'ds': sem, 'reqs': reqs}}
+
+
+def _T(op, arg=0):
+    return {'k': 'touch', 'op': TOUCH.index(op) if isinstance(op, str) else op, 'arg': arg}
 
 
 def _corpus():
@@ -295,6 +330,17 @@ def _corpus():
                                    {'k': 'acc', 'tid': 1}, {'k': 'clu', 'cid': 0}, {'k': 'clu', 'cid': 1}]})
     spt = dict(sp, ns=2, templates=tt, cols=[[0, 1, 2, 3], [2, 0, 3, 1]], shanks=None)
     out.append({'ds': spt, 'reqs': [G(0), G(1), G(0, unw=False), {'k': 'acc', 'tid': 1}, {'k': 'clu', 'cid': 1}]})
+    # history on one object (stage 5): a request, every other accessor, then the same requests again -- dense with a
+    # non-identity inverse whitening matrix (one file each way), dense curated, sparse
+    dh = dict(base, shanks=None, wmi=[[0, 2, 0, 0], [1, 0, 0, 0], [0, 0, 0, -1], [0, 0, 4, 0]], wfiles='wm', amps=True)
+    again = [G(0), G(0, unw=False), G(1), G(1, thr=[1, 2]), {'k': 'acc', 'tid': 0}, {'k': 'clu', 'cid': 1}]
+    for ops in (['amps_t'], ['amps_c'], ['amps_scribble', 'rec_scribble'], ['cmean', 'cluster_wf', 'props', 'spikes', 'describe'],
+                ['model2'], ['reget', 'amps_t', 'amps_t']):
+        out.append({'ds': dh, 'reqs': [G(0)] + [_T(o, 5) for o in ops] + again})
+    dt = dict(dh, wmi=[[1, 0, 0, 0], [2, 1, 0, 0], [0, -1, 1, 0], [1, 0, 2, 1]], wfiles='wmi', sc=[0, 1, 2], scale=2)
+    out.append({'ds': dt, 'reqs': [_T('amps_c'), _T('cluster_wf'), _T('cmean', 2)] + again + [_T('amps_t')] + again})
+    out.append({'ds': dict(sp, amps=True, wmi=dh['wmi'], wfiles='both'),
+                'reqs': [G(0)] + [_T(o, 3) for o in TOUCH] + [G(0), G(1), G(0, unw=False), {'k': 'acc', 'tid': 0}]})
     return[{'kind': 'get', 'inp': copy.deepcopy(c)} for c in out]
 
 
@@ -338,6 +384,71 @@ def _ints(a):
     if a.dtype.kind in 'iub':
         return a.astype(object).tolist() if a.dtype.kind == 'u' else a.astype(np.int64).tolist()
     return None
+
+
+def _scribble(a):
+    import numpy as np
+    if isinstance(a, np.ndarray) and a.flags.writeable and a.size:
+        a[...] = 77 if a.dtype.kind in 'iu' else -12345.5
+
+
+def _touch(m, rq, kw0):
+    """One operation of the history axis (see TOUCH).  Exceptions are the caller's business (sparse storage makes
+    get_amplitudes_true raise, a dataset without amplitudes.npy makes the amplitude accessors raise): swallowed."""
+    import contextlib
+    import io
+    import numpy as np
+    from phylib.io.model import TemplateModel
+    op, arg = TOUCH[rq['op']], int(rq.get('arg', 0))
+    nt = int(m.n_templates)
+    with contextlib.redirect_stdout(io.StringIO()):
+        if op == 'amps_t':
+            m.get_amplitudes_true()
+        elif op == 'amps_c':
+            m.get_amplitudes_true(use='clusters')
+        elif op == 'amps_scribble':
+            for a in m.get_amplitudes_true(sample2unit=1. + arg % 2, use='clusters' if arg % 3 == 2 else 'templates'):
+                _scribble(a)
+        elif op == 'rec_scribble':
+            b = m.get_template(arg % nt, unwhiten=bool(arg // nt % 2))
+            for k in ('template', 'amplitude', 'channel_ids'):
+                _scribble(b[k])
+        elif op == 'cmean':
+            b = m.get_cluster_mean_waveforms(arg % (nt + 1), unwhiten=bool(arg // (nt + 1) % 2))
+            _scribble(b.mean_waveforms)
+        elif op == 'cluster_wf':
+            _scribble(m.cluster_waveforms().data)
+        elif op == 'props':
+            for name in ('templates_channels', 'clusters_channels', 'templates_amplitudes', 'clusters_amplitudes',
+                         'templates_waveforms_durations', 'clusters_waveforms_durations', 'templates_probes'):
+                try:
+                    getattr(m, name)
+                except Exception:  # noqa
+                    pass
+        elif op == 'spikes':
+            m.get_template_counts(arg % (nt + 1))
+            m.get_template_spikes(arg % nt)
+            m.get_cluster_spikes(arg % (nt + 1))
+            m.get_merge_map()
+            m.get_depths()
+        elif op == 'describe':
+            m.describe()
+        elif op == 'model2':
+            kw = dict(kw0, n_closest_channels=1 + arg % 4, amplitude_threshold=[0., .5, 1.][arg % 3])
+            m2 = TemplateModel(**kw)
+            try:
+                for t in range(nt):
+                    b = m2.get_template(t, unwhiten=bool(arg % 2))
+                    _scribble(b.template)
+                m2.get_amplitudes_true()
+            finally:
+                m2.close()
+        elif op == 'reget':
+            for t in range(nt):
+                m.get_template(t)
+                m.get_template(t, unwhiten=False)
+        else:
+            raise ValueError(op)
 
 
 def _one(m, rq):
@@ -392,6 +503,13 @@ def run_case(case):
         m = TemplateModel(**kw)
         out = []
         for rq in inp['reqs']:
+            if rq['k'] == 'touch':
+                try:
+                    _touch(m, rq, kw)
+                    out.append(['touch', 'ok'])
+                except Exception as e:  # noqa: not an observable of this property (recorded for the coverage table only)
+                    out.append(['touch', type(e).__name__])
+                continue
             try:
                 out.append(_one(m, rq))
             except Exception as e:  # noqa: an exception of one request is an observable of that request
@@ -412,6 +530,8 @@ def _req(rq):
         return '(RGet (mkreq %s %s %s %s))' % (D5.nat(rq['tid']), ch, th, q.b(rq['unw']))
     if rq['k'] == 'acc':
         return '(RAcc %s)' % D5.nat(rq['tid'])
+    if rq['k'] == 'touch':
+        return '(RTouch %s)' % D5.z(rq['op'])
     return '(RClu %s)' % D5.z(rq['cid'])
 
 
@@ -424,6 +544,8 @@ def _obs1(o):
         return '(OClu %s)' % D5.zl(o[1])
     if o[0] == 'bad':
         return 'OBad'
+    if o[0] == 'touch':
+        return 'OTouch'
     return 'OCrash'
 
 
@@ -455,10 +577,21 @@ def dist(case, obs):
             out.append('req=get%s%s%s' % ('' if rq['chans'] is None else ':explicit-' + str(rq['form']),
                                           '' if rq['thr'] is None else ':thr%d/%d' % tuple(rq['thr']),
                                           '' if rq['unw'] else ':whitened') + (':no-keywords' if rq.get('bare') else ''))
+        elif rq['k'] == 'touch':
+            out.append('req=touch:' + TOUCH[rq['op']])
         else:
             out.append('req=' + rq['k'])
+    seen_touch = False
+    for rq in case['inp']['reqs']:
+        if rq['k'] == 'touch':
+            seen_touch = True
+        elif seen_touch:
+            out.append('history=%s-after-touch' % rq['k'])
     if obs[0] == 'ok':
-        for ob in obs[2]:
+        for rq, ob in zip(case['inp']['reqs'], obs[2]):
+            if ob[0] == 'touch':
+                out.append('obs=touch:%s:%s' % (TOUCH[rq['op']], ob[1]))
+                continue
             out.append('obs=' + ob[0] + (':' + ob[1] if ob[0] == 'crash' else ''))
             if ob[0] == 'rec':
                 out.append('listed=%s' % ('0' if not ob[4] else '1' if len(ob[4]) == 1 else '2-5' if len(ob[4]) <= 5 else '6-12' if len(ob[4]) <= 12 else '13+'))
@@ -497,11 +630,26 @@ def _drop_channel(sem, c):
 def shrink(case):
     inp = case['inp']
     sem, reqs = inp['ds'], inp['reqs']
-    if len(reqs) > 1:
-        for i in range(len(reqs)):
+    gets = [i for i, r in enumerate(reqs) if r['k'] != 'touch']
+    if len(gets) > 1:
+        for i in gets:                                          # one request, without any history
             yield {'kind': 'get', 'inp': {'ds': sem, 'reqs': [reqs[i]]}}
-    if len(reqs) == 1:
-        rq = reqs[0]
+        if len(gets) < len(reqs):
+            for i in gets:                                      # one request after the touches that precede it
+                pre = [r for r in reqs[:i] if r['k'] == 'touch']
+                if pre:
+                    yield {'kind': 'get', 'inp': {'ds': sem, 'reqs': pre + [reqs[i]]}}
+            for i in gets:                                      # ... or with the earlier requests kept
+                yield {'kind': 'get', 'inp': {'ds': sem, 'reqs': reqs[:i + 1]}}
+            for i in gets:
+                yield {'kind': 'get', 'inp': {'ds': sem, 'reqs': reqs[:i] + reqs[i + 1:]}}
+    if len(gets) == 1 and len(reqs) > 1:
+        for i, r in enumerate(reqs):                            # drop one touch / the touches after the request
+            if r['k'] == 'touch':
+                yield {'kind': 'get', 'inp': {'ds': sem, 'reqs': reqs[:i] + reqs[i + 1:]}}
+    if len(gets) == 1:
+        rq = reqs[gets[0]]
+        _w = lambda s_, r_: {'kind': 'get', 'inp': {'ds': s_, 'reqs': [r_ if j == gets[0] else copy.deepcopy(x) for j, x in enumerate(reqs)]}}
         for c in range(sem['nc'] - 1, -1, -1):
             s = _drop_channel(sem, c)
             if s is None:
@@ -511,20 +659,20 @@ def shrink(case):
                 if c in r['chans']:
                     continue
                 r['chans'] = [v - 1 if v > c else v for v in r['chans']]
-            yield {'kind': 'get', 'inp': {'ds': s, 'reqs': [r]}}
+            yield _w(s, r)
         if sem['ns'] > 2:
             for k in range(sem['ns']):
                 s = copy.deepcopy(sem)
                 s['ns'] -= 1
                 s['templates'] = [[r for i, r in enumerate(t) if i != k] for t in s['templates']]
-                yield {'kind': 'get', 'inp': {'ds': s, 'reqs': [rq]}}
+                yield _w(s, rq)
         for key, val in (('wmi', None), ('shanks', None), ('sc', None), ('tmpl_dtype', 'float32'), ('thr', [0, 1]), ('scale', None)):
             if sem.get(key) != val:
                 s = copy.deepcopy(sem)
                 s[key] = val
                 if key == 'wmi':
                     s['wfiles'] = 'none'
-                yield {'kind': 'get', 'inp': {'ds': s, 'reqs': [rq]}}
+                yield _w(s, rq)
         # zero the templates that are not requested, simplify values
         tid = rq.get('tid')
         if tid is not None:
@@ -532,7 +680,7 @@ def shrink(case):
                 if k != tid and any(v for r in sem['templates'][k] for v in r):
                     s = copy.deepcopy(sem)
                     s['templates'][k] = [[1 if (i == 0 and j == 0) else 0 for j, _ in enumerate(r)] for i, r in enumerate(s['templates'][k])]
-                    yield {'kind': 'get', 'inp': {'ds': s, 'reqs': [rq]}}
+                    yield _w(s, rq)
                     break
 
 
